@@ -198,16 +198,6 @@ def chunk_plan(draw, col, rows, allow):
         pages.append(page)
         if pn is not None:
             left -= pn
-    # a DELTA page without any non-null value crashes the library's decoder (recorded finding
-    # C03-delta-empty-page, probed in isolation): such pages are written PLAIN instead
-    pos = 0
-    for page in pages:
-        cnt = (n - pos) if page["n"] is None else min(page["n"], n - pos)
-        if page["encoding"] == "DELTA_BINARY_PACKED" and not allow.get("empty_delta_page") and \
-                all(v is None for v in rows[pos:pos + cnt]):
-            page["encoding"] = "PLAIN"
-            page.pop("delta", None)
-        pos += cnt
     cp = {"codec": draw(st.sampled_from(CODECS)), "pages": pages,
           "stats": draw(st.sampled_from([None, None, True, {"fields": ["min", "max", "null_count"]},
                                          {"fields": ["min_value", "max_value"]}, {"fields": ["null_count"]}]))}
